@@ -231,7 +231,8 @@ void own2d(Ctx& c) {
         VP_LIB(At = transpose(A)); for (size_t i = 0; i < M; ++i) for (size_t k = 0; k < K; ++k) c.eq(At.data()[k * M + i], A.data()[i * K + k], "placed=transpose(placed)", (long)(i * K + k));
         paint(At.data(), M * K); VP_LIB(At = trans(A)); for (size_t i = 0; i < M; ++i) for (size_t k = 0; k < K; ++k) c.eq(At.data()[k * M + i], A.data()[i * K + k], "placed=trans(placed)", (long)(i * K + k));
         paint(At.data(), M * K); VP_LIB(Fastor::_transpose<T, M, K>(A.data(), At.data())); for (size_t i = 0; i < M; ++i) for (size_t k = 0; k < K; ++k) c.eq(At.data()[k * M + i], A.data()[i * K + k], "_transpose(placed storage)", (long)(i * K + k));
-        if (M * K * K * N <= 16384) { Placed<Tensor<T, M, K, K, N>> pO(pl); VP_LIB(*pO = outer(A, B));     // (a larger outer product is returned through an 8 MB stack temporary: the harness's stack limit, not the library's business) c.eqn(pO->data()[0], (T)(A.data()[0] * B.data()[0]), "outer(placed,placed)[0]", 0); c.eqn(pO->data()[M * K * K * N - 1], (T)(A.data()[M * K - 1] * B.data()[K * N - 1]), "outer(placed,placed)[last]", 1); pO.verify(c, "outer"); }
+        // (a larger outer product is returned through a multi-megabyte stack temporary: the driver's stack limit, not the library's business)
+        if (M * K * K * N <= 16384) { Placed<Tensor<T, M, K, K, N>> pO(pl); VP_LIB(*pO = outer(A, B)); c.eqn(pO->data()[0], (T)(A.data()[0] * B.data()[0]), "outer(placed,placed)[0]", 0); c.eqn(pO->data()[M * K * K * N - 1], (T)(A.data()[M * K - 1] * B.data()[K * N - 1]), "outer(placed,placed)[last]", 1); pO.verify(c, "outer"); }
         { Tensor<T, 1, K> row; VP_LIB(row = A(M - 1, all)); for (size_t k = 0; k < K; ++k) c.eq(row.data()[k], A.data()[(M - 1) * K + k], "placed(last,all)", (long)k); }
         { Tensor<T, M, 1> col; VP_LIB(col = A(all, K - 1)); for (size_t i = 0; i < M; ++i) c.eq(col.data()[i], A.data()[i * K + K - 1], "placed(all,last)", (long)i); }
         pA.verify(c, "A"); pB.verify(c, "B"); pC.verify(c, "C"); pAt.verify(c, "At");
